@@ -556,7 +556,7 @@ def run_c04(ctx):
                         diffs.append(f"constraint {n1} differs: {b}")
             if diffs:
                 r.oracle_fail("emitter", sx.dumps(text), "denotes:same-model", "; ".join(diffs[:3]))
-            for fail in fmt.graph_wf(holder["fm"]):
+            for fail in fmt.graph_wf(holder["fm"], written=fmt.written_names(m)):
                 r.oracle_fail("emitter", sx.dumps(text), "graph:" + fail[0], fail[1])
             # negative case made from this document
             bad = invalidate(text, g.rng, g)
